@@ -575,6 +575,15 @@ func (j *judge) judgeElement(e *El, full []xml.Token, rec *elemRec, written []st
 		if x.Shape == "empty" && len(x.Invoke) == 1 && kind != "iq" {
 			c.Count("empty_stanza_to_wildcard", 1)
 		}
+		switch x.Shape {
+		case "text-only":
+			c.Count("stanza_with_text_only_content", 1)
+		case "whitespace-only":
+			c.Count("stanza_with_whitespace_only_content", 1)
+		}
+		if (kind == "message" || kind == "presence") && len(e.Kids) > 0 && (len(e.Lead) > 0 || len(e.Mid) > 0 || len(e.Tail) > 0) {
+			c.Count("stanza_payloads_with_character_data_around", 1)
+		}
 		if kind == "iq" && len(e.Kids) > 0 {
 			if n := e.Fill; (n >= 2) || (n >= 1 && e.Sep != "") {
 				c.Count("iq_payload_after_two_or_more_whitespace_tokens", 1)
@@ -659,6 +668,17 @@ func (j *judge) judgeElement(e *El, full []xml.Token, rec *elemRec, written []st
 	}
 	if (ec == "error" || ec == "eof") && handlerErr {
 		ec = "none"
+	}
+	if x.Refused {
+		if j.count {
+			c.Count("iq_with_text_before_or_instead_of_payload_refused", 1)
+			if lead := chunksText(e.Lead); strings.TrimSpace(lead) == "" {
+				c.Count("iq_payload_after_unicode_white_space_refused", 1)
+			}
+		}
+		if ec == "error" {
+			ec = "none"
+		}
 	}
 	// --- the default: an error return where nothing (or the fallback) was due
 	if ec != "none" {
@@ -1609,6 +1629,8 @@ func Prop() *core.Prop {
 		"served_sessions", "served_elements", "direct_elements",
 		"direct_memory_reader_elements", "memory_reader_last_token_delivered_with_eof", "reentrant_dispatches",
 		"concurrent_scenarios", "concurrent_dispatches", "concurrent_scenarios_with_overlapping_handlers",
+		"iq_with_text_before_or_instead_of_payload_refused", "iq_payload_after_unicode_white_space_refused",
+		"stanza_with_text_only_content", "stanza_with_whitespace_only_content", "stanza_payloads_with_character_data_around",
 		"iq_payload_after_two_or_more_whitespace_tokens", "stanza_payloads_separated_by_several_whitespace_tokens",
 		"stanzas_with_qualified_type_id_to_from_attributes", "handlers_returning_sentinel_errors", "handlers_due_after_a_handler_returned_io_EOF",
 		"staged_registration_scenarios", "staged_elements", "staged_elements_routed_differently_after_later_registration",
@@ -1635,7 +1657,7 @@ func Prop() *core.Prop {
 		Rule:  "a case is a multiplexer (stanza namespace client/server/any) with a PRNG-drawn pattern set: for one or two (kind,type) pairs a random subset of the nine names over 2 local names x 2 namespaces (4 exact, 2 local-only, 2 namespace-only, the bare wildcard), for a quarter of those pairs also 1-3 payload patterns carrying the stanza's own element name / local name / content namespace (which an empty stanza must not be matched against; 4% of children carry the stanza's own name), up to 5 patterns with the same names under other kinds/types, up to 3 top-level names; 1-3 incoming elements (stanzas of the focus pairs, of other kinds/types, in the other content namespace, non-stanza top-level elements) with 0-4 children in any order, nested children, white space, names outside the universe. Every handler is tagged with its pattern, reads a fixed number of tokens (0-7 or until EOF and beyond) and may write a marker. Each element goes through ServeMux.HandleXMPP on an element-limited reader (and 1 case in 12 also through a served session); the handlers invoked, the tokens each could read and what reached the encoder are compared with a reference lookup written from the statement. Every element is fed twice on fresh multiplexers: from an encoding/xml decoder limited to the element, and from an in-memory token reader that returns its last token together with io.EOF (the form xmlstream.Wrap / stanza.Message.Wrap / MultiReader produce). In 1 case in 5 message/presence focus pairs get a forwarding handler that hands a stanza embedded in a {urn:verif:fwd}forwarded child to the same multiplexer while its own dispatch is in progress (re-entrant dispatch; the embedded stanza is judged by the same reference, and the carrier's later handlers must still see the carrier). 1 case in 8 also dispatches its elements concurrently on one shared multiplexer, one goroutine each, after one ordinary dispatch; the first handler reached for each element waits until the others are inside a handler or done, so the dispatches overlap by construction; invocations are attributed by the id of the stanza value the handler is handed, and the children run under the race detector. 1 case in 4 also registers a duplicate, a nil handler, a nil handler function or a near-duplicate. distinct = (kind, empty/children, pattern-class mask for the first child, steps chosen, read classes, fallback).",
 		Assumptions: []string{
 			"a message without a type attribute, or with a value other than the five defined ones (unknown words, wrong case, white space, empty), is of type normal (RFC 6121 5.2.2, documented on stanza.MessageType); a presence without a type is available; undefined presence and IQ type values are not generated (the library does not normalise them and the statement does not say)",
-			"a stanza whose only content is character data is not generated (the statement speaks of child payloads and of empty stanzas only)",
+			"a message/presence whose only content is character data has no payload and is not empty (its tokens are more than a start and an end element): nothing is due, for text (key shape text-only) and for white space alone (key shape whitespace-only, the library's reading of 'empty': exactly start and end element); an IQ whose payload is preceded by, or whose only content is, character data other than XML white space (space, tab, CR, LF: Unicode spaces such as NBSP, NEL, EM SPACE, U+3000 and zero-width characters are text) is refused: not dispatched, nothing written, an error accepted",
 			"top-level patterns are consulted before the stanza routers (ServeMux.Handler's documented order): a namespace-only top-level pattern naming a stanza content namespace takes the stanzas of that namespace; exact and local-only stanza names cannot be registered with Handle",
 			"in one case in five a third of the handlers return an error after running their program: dispatch to the later payloads of a message/presence must go on and their handlers must still be handed the complete stanza; an error out of HandleXMPP is accepted exactly when an invoked handler returned one (whether it is returned is counted, not judged); any other error or panic is the multiplexer's own",
 			"for IQ handlers only the tokens of the payload itself are demanded; reading on to later siblings or the IQ end element is allowed",
